@@ -71,10 +71,38 @@ def shape_class(seq):
 
 
 def check_header(seq, follower, body, res):
-    lua = c01.lua_mod()
     src = header_source(seq, follower, body)
+    check_src(src, {'src': src, 'seq': list(seq), 'follower': follower}, shape_class(seq), follower, res)
+
+
+HEADERS = [b'', b'-- t\n-- a\n', b'--[[t]]\n// a\n']
+
+
+def check_bodies(tier, k, n, res):
+    """Dropped comments inside the code: every adjacent terminal pair of the grammar in a shortest valid program,
+    with a block / line comment (every comment-bearing separator legal there) in the gap between the two, below
+    each header."""
+    from props import c08
+    from lib import luagen as L
+    for prog in c08.programs(tier, 'pairs', k, n):
+        if isinstance(prog, tuple):
+            continue
+        a, b = prog.pair
+        m = len(prog.toks)
+        for g in range(1, m):
+            if prog.toks[g - 1].cls == a and prog.toks[g].cls == b:
+                for sep in L.legal_seps(prog, g):
+                    if b'--' not in sep and b'//' not in sep:
+                        continue
+                    body = L.assemble(prog, {g: sep})
+                    for hdr in HEADERS:
+                        src = hdr + body
+                        check_src(src, {'src': src, 'body': True}, 'body', 'pair-gap-comment', res)
+
+
+def check_src(src, case, shape, follower, res):
+    lua = c01.lua_mod()
     res.evaluations += 1
-    case = {'src': src, 'seq': list(seq), 'follower': follower}
     try:
         intoks = reflex.lex(src)
     except reflex.Reject:
@@ -100,7 +128,7 @@ def check_header(seq, follower, body, res):
     try:
         outtoks = reflex.lex(out)
     except reflex.Reject as e:
-        res.violation('C19|output-unlexable|%s' % shape_class(seq)[:20], 'luamin(%r) = %r does not lex: %s' % (src, out, e), case)
+        res.violation('C19|output-unlexable|%s' % shape[:20], 'luamin(%r) = %r does not lex: %s' % (src, out, e), case)
         return
     k = 0
     for n, w in enumerate(want):
@@ -216,7 +244,9 @@ def shards(tier, seed):
     total = count_seqs(BOUNDS[tier]['items'], len(ITEMS))
     n = 32 if tier == 'quick' else 128
     step = (total + n - 1) // n
-    return [('hdr', tier, lo, min(total, lo + step)) for lo in range(0, total, step)] + [('cli',)]
+    nb = 8 if tier == 'quick' else 16
+    return ([('hdr', tier, lo, min(total, lo + step)) for lo in range(0, total, step)] + [('cli',)] +
+            [('bodies', tier, k, nb) for k in range(nb)])
 
 
 FOLLOWERS = ['nothing', 'same-line', 'next-line']
@@ -227,6 +257,10 @@ def run_shard(item):
     if item[0] == 'cli':
         cli_batch(res)
         res.sample({'cli': 'p8tool luamin on .p8 and .p8.png carts with 9 header shapes'})
+        return res
+    if item[0] == 'bodies':
+        check_bodies(item[1], item[2], item[3], res)
+        res.sample({'bodies': 'header + pair witness with a comment in the pair gap', 'example': b'-- t\n-- a\ny=x- --[[c]] -3\n'})
         return res
     _, tier, lo, hi = item
     for idx in range(lo, hi):
@@ -246,6 +280,9 @@ def replay(case):
     res = ShardResult()
     if case.get('cli'):
         cli_batch(res)
+        return [(s, v[0]) for s, v in res.violations.items()]
+    if case.get('body'):
+        check_src(case['src'], case, 'body', 'pair-gap-comment', res)
         return [(s, v[0]) for s, v in res.violations.items()]
     src = case['src']
     seq = case['seq']
